@@ -25,3 +25,25 @@ func ListenAndServe(srv *http.Server) error {
 	}
 	return srv.ListenAndServe()
 }
+
+// LockHook / UnlockHook: instrumented repository code calls X.Lock() as
+// simyield.Lock(X.TryLock, X.Lock, site) and X.Unlock() as simyield.Unlock(X.Unlock), so that a
+// simulator can keep a task that waits for a mutex out of the runnable set (a goroutine blocked
+// inside sync.Mutex.Lock is not durably blocked for testing/synctest and would stall quiescence).
+var LockHook func(try func() bool, lock func(), site string)
+var UnlockHook func()
+
+func Lock(try func() bool, lock func(), site string) {
+	if h := LockHook; h != nil {
+		h(try, lock, site)
+		return
+	}
+	lock()
+}
+
+func Unlock(unlock func()) {
+	unlock()
+	if h := UnlockHook; h != nil {
+		h()
+	}
+}
